@@ -85,6 +85,24 @@ def run(tier, seed):
                 done += 1
                 orig_id = spec.sha256d(blk.header.serialize())
                 cs_with = cs.add_block(blk, ts)      # the same chain once it already holds the genuine block
+                # two of the enumerated blocks sit next to a checkpoint horizon (installed for the rest of this block's
+                # enumeration): #3 is the FIRST block above the last checkpoint (its parent is the checkpointed one), #4 IS
+                # at a checkpointed height and carries the checkpointed id -- its content is still what its header commits to
+                import contextlib as _cl
+                from skepticoin.humans import human as _human
+                _stack = _cl.ExitStack()
+                env_params = env
+                if done in (3, 4) and par.height >= 1:
+                    pc = par.chain()
+                    if done == 3:
+                        hzk = par.height
+                        kn = {0: _human(pc[0].id), hzk: _human(pc[hzk].id)}
+                    else:
+                        hzk = par.height + 1
+                        kn = {0: _human(pc[0].id), hzk: _human(orig_id)}
+                    env_params = _stack.enter_context(chaingen.Env(period=env.period, block_span=env.span // env.period,
+                                                                   interval=env.interval, hz=hzk, known=kn))
+                    ck.count('block-enumerated-next-to-checkpoint-horizon/%s' % ('first-above' if done == 3 else 'at-checkpoint'))
                 ops = []
                 impl_codes = []
                 chain_views = [m.view for m in par.chain()]
@@ -124,7 +142,7 @@ def run(tier, seed):
                                             ' under the SAME id with different content' if same_id else ''),
                                          {'label': 'altered', 'prefix': [m.block.serialize().hex() for m in nodes],
                                           'block': alt.hex(), 'now': ts, 'period': env.period, 'span': env.span,
-                                          'interval': env.interval})
+                                          'interval': env.interval, 'hz': env_params.hz, 'known': env_params.known})
                     else:
                         ck.evaluations += 1
                         ck.count('%s/undecodable' % kind)
@@ -178,7 +196,8 @@ def run(tier, seed):
                     tbl.append(('sha256d', nd.view.header_bytes, nd.id))
                     for t in nd.view.txs:
                         tbl.append(('sha256d', t.bytes, t.id))
-                reqs.append(('chain', tbl, [env.params_sx(), [[0, nd.block.serialize()] for nd in nodes] + ops, 0]))
+                reqs.append(('chain', tbl, [env_params.params_sx(), [[0, nd.block.serialize()] for nd in nodes] + ops, 0]))
+                _stack.close()
                 meta.append((impl_codes, orig_id, len(nodes)))
     ck.extra['exhaustive'] = True
     ck.extra['blocks_enumerated'] = done
